@@ -218,19 +218,11 @@ pub fn check_aspect_w(ctx: &Ctx, cfg: &Cfg, b: &Built, aspect: &str, hay: &[u8],
             if !ok {
                 report_fail(ctx, cfg, aspect, hay, s, e, anch, &want, &format!("{:?}", got));
             }
-            // the front-end iterator drained by count() after one call of next()
-            if ok && s <= e && !want.is_empty() {
-                if let Some(t) = b.top() {
-                    let got = guard(|| {
-                        let inp = aho_corasick::Input::new(hay).span(s..e).anchored(if anch { aho_corasick::Anchored::Yes } else { aho_corasick::Anchored::No });
-                        let mut it = t.try_find_iter(inp).map_err(|e| e.to_string())?;
-                        it.next();
-                        Ok::<usize, String>(it.count())
-                    });
-                    if !matches!(&got, Ok(Ok(n)) if *n == want.len() - 1) {
-                        ok = false;
-                        report_fail(ctx, cfg, aspect, hay, s, e, anch, &format!("{} matches left after next()", want.len() - 1), &format!("count() = {:?}", got));
-                    }
+            // the iterator type obeys the Iterator protocol (nth, skip, step_by, count, last, size_hint, fold)
+            if ok && s <= e && want.len() <= 6 && (s == 0 || e == hay.len()) {
+                if let Ok(Err(why)) = guard(|| b.iter_protocol(hay, s, e, anch, &want, false)) {
+                    ok = false;
+                    report_fail(ctx, cfg, aspect, hay, s, e, anch, &want, &format!("Iterator protocol: {}", why));
                 }
             }
             ok
@@ -250,34 +242,11 @@ pub fn check_aspect_w(ctx: &Ctx, cfg: &Cfg, b: &Built, aspect: &str, hay: &[u8],
                     report_fail(ctx, cfg, "ov", hay, s, e, anch, &want, &format!("iterator: {:?}", got));
                 }
             }
-            // the front-end iterator drained by other Iterator methods after k calls of next()
-            if ok && !anch && s <= e {
-                if let Some(t) = b.top() {
-                    for k in [1usize, 2] {
-                        if k > want.len() {
-                            break;
-                        }
-                        let got = guard(|| {
-                            let mut it = t.try_find_overlapping_iter(aho_corasick::Input::new(hay).span(s..e)).map_err(|e| e.to_string())?;
-                            for _ in 0..k {
-                                it.next();
-                            }
-                            Ok::<usize, String>(it.count())
-                        });
-                        if !matches!(&got, Ok(Ok(n)) if *n == want.len() - k) {
-                            ok = false;
-                            report_fail(ctx, cfg, "ov", hay, s, e, anch, &format!("{} matches left after {} calls of next()", want.len() - k, k), &format!("count() = {:?}", got));
-                        }
-                        let got = guard(|| {
-                            let mut it = t.try_find_overlapping_iter(aho_corasick::Input::new(hay).span(s..e)).map_err(|e| e.to_string())?;
-                            it.next();
-                            Ok::<Option<M>, String>(it.last().map(crate::eng::cv))
-                        });
-                        if want.len() >= 2 && !matches!(&got, Ok(Ok(l)) if *l == want.last().cloned()) {
-                            ok = false;
-                            report_fail(ctx, cfg, "ov", hay, s, e, anch, &format!("last() = {:?}", want.last()), &format!("{:?}", got));
-                        }
-                    }
+            // the iterator type obeys the Iterator protocol (nth, skip, step_by, count, last, size_hint, fold)
+            if ok && !anch && s <= e && want.len() <= 8 && (s == 0 || e == hay.len()) {
+                if let Ok(Err(why)) = guard(|| b.iter_protocol(hay, s, e, false, &want, true)) {
+                    ok = false;
+                    report_fail(ctx, cfg, "ov", hay, s, e, anch, &want, &format!("Iterator protocol: {}", why));
                 }
             }
             ok
@@ -311,6 +280,7 @@ pub fn api_result(b: &Built, aspect: &str, hay: &[u8], s: usize, e: usize, anch:
     match aspect {
         "find" => format!("{:?}", guard(|| b.try_find(hay, s, e, anch, false))),
         "earliest" => format!("{:?}", guard(|| b.try_find(hay, s, e, anch, true)).map(|r| r.map(|o| o.is_some()))),
+        "earliestfull" => format!("{:?}", guard(|| b.try_find(hay, s, e, anch, true))),
         "iter" => format!("{:?}", guard(|| b.try_find_iter(hay, s, e, anch))),
         "ov" => format!("{:?}", guard(|| b.overlapping_steps(hay, s, e, anch, 2, 4096))),
         x => panic!("aspect {}", x),
@@ -370,8 +340,25 @@ pub fn check_span_rel(ctx: &Ctx, built: &[(Cfg, Built)], hay: &[u8], s: usize, e
                 }
                 if rel == "kind" {
                     let mut reference: Option<(&Cfg, String)> = None;
+                    // an earliest search returns the very same match for every representation
+                    // (compared among the configurations with the same prefilter setting: a
+                    // prefilter may legitimately confirm the normal match instead)
+                    let mut reference_e: [Option<(&Cfg, String)>; 2] = [None, None];
                     for (cfg, b) in built {
                         if !cfg.supports(anch) {
+                            continue;
+                        }
+                        if *aspect == "earliest" {
+                            let r = api_result(b, "earliestfull", hay, s, e, anch);
+                            ctx.rep.case(any);
+                            match &reference_e[cfg.pre as usize] {
+                                None => reference_e[cfg.pre as usize] = Some((cfg, r)),
+                                Some((c0, r0)) => {
+                                    if *r0 != r {
+                                        report_fail(ctx, cfg, aspect, hay, s, e, anch, &format!("the same earliest-mode result as {} = {}", c0.encode(), r0), &r);
+                                    }
+                                }
+                            }
                             continue;
                         }
                         let r = api_result(b, aspect, hay, s, e, anch);
